@@ -10,6 +10,7 @@ import MinizProof.Lemmas.CoreRingValid
 import MinizProof.Props.C07
 import MinizProof.Lemmas.CorePrefix
 import MinizProof.Lemmas.CoreRingTheory
+import MinizProof.Lemmas.CoreDone
 set_option linter.unusedVariables false
 set_option maxRecDepth 100000
 namespace Model.Core
@@ -276,6 +277,8 @@ theorem Running.wgeo {flags : Nat} {K : List (Array UInt8)} {w : WB} {inBuf fed 
 
 /-- `push_dict_out` on any window: what is handed over followed by what stays pending is what was
     pending. -/
+theorem push_r (w : WB) (room : Nat) : (push w room).2.r = w.r := rfl
+
 theorem push_split {w : WB} (g : WGeo w) (room : Nat) :
     WGeo (push w room).2 ∧
     (push w room).1 ++ (push w room).2.dict.extract (push w room).2.ofs ((push w room).2.ofs + (push w room).2.avail) =
@@ -335,7 +338,10 @@ theorem IsPrefix.of_append {X Y P : Array UInt8} (h : IsPrefix (X ++ Y) P) : IsP
     running (the ring driver's state), or draining the tail of a finished stream. -/
 def WInv (flags : Nat) (V : Array UInt8 → Prop) (P : Array UInt8) (L : Nat) (T : Array UInt8) (w : WB) (carry D : Array UInt8) (C : Nat) : Prop :=
   (∃ K fed, Running flags K w carry fed D C ∧ V (catList (K ++ [fed]) ++ T)) ∨
-  (w.last = stDone ∧ 0 < w.avail ∧ WGeo w ∧ D ++ w.dict.extract w.ofs (w.ofs + w.avail) = P ∧ C = L)
+  (w.last = stDone ∧ 0 < w.avail ∧ WGeo w ∧ D ++ w.dict.extract w.ofs (w.ofs + w.avail) = P ∧ C = L ∧ DoneRegs flags w.r)
+
+/-- the wrapper after it has reported stream end: nothing pending, the decoder finished -/
+def Ended (flags : Nat) (w : WB) : Prop := w.last = stDone ∧ w.avail = 0 ∧ WGeo w ∧ DoneRegs flags w.r
 
 theorem catList_snoc_empty (K : List (Array UInt8)) (fed : Array UInt8) :
     catList ((K ++ [fed]) ++ [#[]]) = catList (K ++ [fed]) := by
@@ -344,7 +350,7 @@ theorem catList_snoc_empty (K : List (Array UInt8)) (fed : Array UInt8) :
 /-- Between calls, what has been handed over is a prefix of the plaintext. -/
 theorem WInv.isPrefix {flags : Nat} {V : Array UInt8 → Prop} {P : Array UInt8} {L : Nat} (hf : RingTheory flags V P L) {T : Array UInt8} {w : WB}
     {carry D : Array UInt8} {C : Nat} (h : WInv flags V P L T w carry D C) : IsPrefix D P := by
-  rcases h with ⟨K, fed, hrun, hv⟩ | ⟨_, _, _, hD, _⟩
+  rcases h with ⟨K, fed, hrun, hv⟩ | ⟨_, _, _, hD, _, _⟩
   · cases K with
     | nil =>
       have hd := hrun.deliv
@@ -372,7 +378,7 @@ def CallOk (flags : Nat) (V : Array UInt8 → Prop) (P : Array UInt8) (L : Nat) 
   (out.2.status = rOk ∨ out.2.status = rStreamEnd ∨ (out.2.status = rBuf ∧ origIn = 0)) ∧
   ∃ new n, out.2.out = acc ++ new ∧ out.2.consumed = c + n ∧ n ≤ inp.size ∧ new.size ≤ room ∧
     (0 < inp.size → 0 < room → 0 < n ∨ 0 < new.size ∨ out.2.status = rStreamEnd) ∧
-    (if out.2.status = rStreamEnd then D ++ new = P ∧ C + n = L
+    (if out.2.status = rStreamEnd then D ++ new = P ∧ C + n = L ∧ Ended flags out.1
      else WInv flags V P L T out.1 (inp.extract n inp.size) (D ++ new) (C + n))
 
 /-- THE LOOP: from a running state with the window drained. -/
@@ -397,12 +403,13 @@ theorem loop_ok {flags : Nat} {V : Array UInt8 → Prop} {P : Array UInt8} {L : 
       ⟨h.ofsLt, by show rs.out.size = dictSize; rw [hfacts.size]; exact h.dsz,
        by show w.ofs + rs.written ≤ dictSize; have := hfacts.wBudget; have := h.ofsLt; omega⟩
     obtain ⟨hgeo2, hsplit, hall, hbsz, hav2, hlast2⟩ := push_split hgeo1 room
+    have hr2 := push_r { w with r := rs.r, dict := rs.out, last := rs.status, avail := rs.written } room
     unfold loopNone
     simp only [hres]
     generalize hp : push { w with r := rs.r, dict := rs.out, last := rs.status, avail := rs.written } room = pr
-      at hgeo2 hsplit hall hbsz hav2 hlast2
+      at hgeo2 hsplit hall hbsz hav2 hlast2 hr2
     obtain ⟨bytes, w2⟩ := pr
-    dsimp only at hgeo2 hsplit hall hbsz hav2 hlast2
+    dsimp only at hgeo2 hsplit hall hbsz hav2 hlast2 hr2
     have hbr : bytes.size ≤ room := by rw [hbsz]; exact Nat.min_le_right _ _
     have hcons := hfacts.consumed
     simp only
@@ -417,17 +424,18 @@ theorem loop_ok {flags : Nat} {V : Array UInt8 → Prop} {P : Array UInt8} {L : 
     · -- Done
       rw [if_neg (by rw [hd]; decide), if_neg (fun hh => absurd (hd.symm.trans hh.1) (by decide)), if_pos (.inl hd)]
       obtain ⟨hD, hCL⟩ := h.done hf ha T hv (by rw [hres]; exact hd)
-      rw [hres] at hD hCL
+      have hdr := done_leaves_doneRegs w.r inp w.dict w.ofs (dictSize - w.ofs) flags (by rw [hres]; exact hd)
+      rw [hres] at hD hCL hdr
       by_cases h0 : w2.avail = 0
       · rw [if_pos ⟨hd, h0⟩]
         refine ⟨.inr (.inl rfl), bytes, rs.consumed, rfl, rfl, hcons, hbr, fun _ _ => .inr (.inr rfl), ?_⟩
         show (if rStreamEnd = rStreamEnd then _ else _)
-        rw [if_pos rfl, hall h0]; exact ⟨hD, hCL⟩
+        rw [if_pos rfl, hall h0]; exact ⟨hD, hCL, by rw [hlast2]; exact hd, h0, hgeo2, by rw [hr2]; exact hdr⟩
       · rw [if_neg (fun hh => h0 hh.2)]
         refine ⟨.inl rfl, bytes, rs.consumed, rfl, rfl, hcons, hbr, fun _ hr => .inr (.inl (by rw [hbsz]; omega)), ?_⟩
         show (if rOk = rStreamEnd then _ else _)
         rw [if_neg (by decide)]
-        refine .inr ⟨by rw [hlast2]; exact hd, Nat.pos_of_ne_zero h0, hgeo2, ?_, hCL⟩
+        refine .inr ⟨by rw [hlast2]; exact hd, Nat.pos_of_ne_zero h0, hgeo2, ?_, hCL, by rw [hr2]; exact hdr⟩
         rw [Array.append_assoc, hsplit]; exact hD
     · have hsusp : suspended rs := by
         rcases hsusp' with h1 | h1
@@ -508,7 +516,7 @@ theorem call_ok {flags : Nat} {V : Array UInt8 → Prop} {P : Array UInt8} {L : 
     CallOk flags V P L T D (carry ++ chunk) C room (carry ++ chunk).size 0 #[] (inflateNone flags w (carry ++ chunk) room) := by
   have e1 : (carry ++ chunk).extract 0 (carry ++ chunk).size = carry ++ chunk := Array.extract_size
   unfold inflateNone
-  rcases hinv with ⟨K, fed, hrun, hv⟩ | ⟨hlast, hav, hgeo, hD, hCL⟩
+  rcases hinv with ⟨K, fed, hrun, hv⟩ | ⟨hlast, hav, hgeo, hD, hCL, hdr⟩
   · -- running
     have hl1 : w.last ≠ stFailedCannotMakeProgress := by
       rcases hrun.last with h | h <;> rw [h] <;> decide
@@ -537,28 +545,82 @@ theorem call_ok {flags : Nat} {V : Array UInt8 → Prop} {P : Array UInt8} {L : 
   · -- draining the tail of a finished stream
     rw [if_neg (by rw [hlast]; decide), if_neg (by rw [hlast]; decide), if_pos (Nat.pos_iff_ne_zero.mp hav)]
     obtain ⟨hgeo2, hsplit, hall, hbsz, hav2, hlast2⟩ := push_split hgeo room
-    generalize hp : push w room = pr at hgeo2 hsplit hall hlast2 hbsz hav2
+    have hr2 := push_r w room
+    generalize hp : push w room = pr at hgeo2 hsplit hall hlast2 hbsz hav2 hr2
     obtain ⟨bytes, w2⟩ := pr
-    dsimp only at hgeo2 hsplit hall hlast2 hbsz hav2 ⊢
+    dsimp only at hgeo2 hsplit hall hlast2 hbsz hav2 hr2 ⊢
     have hbr : bytes.size ≤ room := by rw [hbsz]; exact Nat.min_le_right _ _
     by_cases h0 : w2.avail = 0
     · rw [if_pos ⟨by rw [hlast2]; exact hlast, h0⟩]
       refine ⟨.inr (.inl rfl), bytes, 0, by simp, rfl, Nat.zero_le _, hbr, fun _ _ => .inr (.inr rfl), ?_⟩
       show (if rStreamEnd = rStreamEnd then _ else _)
-      rw [if_pos rfl, hall h0]; exact ⟨hD, by omega⟩
+      rw [if_pos rfl, hall h0]; exact ⟨hD, by omega, by rw [hlast2]; exact hlast, h0, hgeo2, by rw [hr2]; exact hdr⟩
     · rw [if_neg (fun hh => h0 hh.2)]
       refine ⟨.inl rfl, bytes, 0, by simp, rfl, Nat.zero_le _, hbr, fun _ hr => .inr (.inl (by rw [hbsz]; omega)), ?_⟩
       show (if rOk = rStreamEnd then _ else _)
       rw [if_neg (by decide), e1]
-      refine .inr ⟨by rw [hlast2]; exact hlast, Nat.pos_of_ne_zero h0, hgeo2, ?_, by omega⟩
+      refine .inr ⟨by rw [hlast2]; exact hlast, Nat.pos_of_ne_zero h0, hgeo2, ?_, by omega, by rw [hr2]; exact hdr⟩
       rw [Array.append_assoc, hsplit]; exact hD
+
+/-- AFTER STREAM END: a call on an ended wrapper, whatever it is offered, reports stream end again,
+    consumes nothing, hands over nothing, and leaves the wrapper ended. -/
+theorem ended_call (flags : Nat) (w : WB) (inp : Array UInt8) (room : Nat) (h : Ended flags w) :
+    (inflateNone flags w inp room).2.status = rStreamEnd ∧ (inflateNone flags w inp room).2.consumed = 0 ∧
+    (inflateNone flags w inp room).2.out = #[] ∧ Ended flags (inflateNone flags w inp room).1 := by
+  obtain ⟨hlast, hav, hgeo, hdr⟩ := h
+  have hbg : badGeometry flags w.dict.size w.ofs = false := by
+    unfold badGeometry
+    rw [hgeo.dsz]
+    have h1 : isPow2OrZero dictSize = true := by decide
+    have h2 := hgeo.ofsLt
+    simp only [h1, Bool.not_true, Bool.and_false, Bool.false_or, decide_eq_false_iff_not, Nat.not_lt]
+    omega
+  obtain ⟨d1, d2, d3, d4, d5⟩ := doneRegs_call w.r inp w.dict w.ofs (dictSize - w.ofs) flags hbg hdr
+  unfold inflateNone
+  rw [if_neg (by rw [hlast]; decide), if_neg (by rw [hlast]; decide), if_neg (by rw [hav]; decide)]
+  have hfu : inp.size + room + 2 = (inp.size + room + 1) + 1 := rfl
+  rw [hfu]
+  unfold loopNone
+  generalize hres : decompress w.r inp w.dict w.ofs (dictSize - w.ofs) flags = rs at d1 d2 d3 d4 d5
+  simp only
+  have hpush : push { w with r := rs.r, dict := rs.out, last := rs.status, avail := rs.written } room =
+      (#[], { w with r := rs.r, dict := rs.out, last := rs.status, avail := 0 }) := by
+    unfold push
+    simp only [d3, Nat.zero_min, Nat.add_zero, Nat.sub_zero, Nat.mod_eq_of_lt hgeo.ofsLt]
+    congr 1
+    simp only [Array.extract_eq_empty_iff]
+    exact Nat.min_le_left _ _
+  rw [hpush]
+  simp only
+  rw [if_neg (by rw [d1]; decide), if_neg (by rw [d1]; decide), if_neg (fun hh => absurd (d1.symm.trans hh.1) (by decide)),
+    if_pos (.inl d1), if_pos ⟨d1, trivial⟩]
+  refine ⟨rfl, by show 0 + rs.consumed = 0; rw [d2], by simp, d1, rfl, ⟨hgeo.ofsLt, by show rs.out.size = dictSize; rw [d4]; exact hgeo.dsz, by show w.ofs + 0 ≤ dictSize; have := hgeo.ofsLt; omega⟩, d5⟩
+
+/-- … and so does every later call of a session. -/
+theorem runInfl_ended (flags : Nat) : ∀ (calls : List (Array UInt8 × Nat)) (w : WB) (carry : Array UInt8), Ended flags w →
+    ∀ x ∈ runInfl flags w carry calls, x.2.2.status = rStreamEnd ∧ x.2.2.consumed = 0 ∧ x.2.2.out = #[] := by
+  intro calls
+  induction calls with
+  | nil => intro w carry _ x hx; simp [runInfl] at hx
+  | cons cr rest ih =>
+    intro w carry h x hx
+    obtain ⟨chunk, room⟩ := cr
+    obtain ⟨e1, e2, e3, e4⟩ := ended_call flags w (carry ++ chunk) room h
+    unfold runInfl at hx
+    generalize hres : inflateNone flags w (carry ++ chunk) room = res at hx e1 e2 e3 e4
+    obtain ⟨w', r⟩ := res
+    simp only [List.mem_cons] at hx
+    rcases hx with rfl | hx
+    · exact ⟨e1, e2, e3⟩
+    · exact ih w' _ e4 x hx
 
 /-- WHAT A CALLER OF `inflate()` MAY RELY ON for a stream whose plaintext is `P`: each call (offered
     `n` bytes of input and `room` bytes of output space) returns Ok, StreamEnd or — only when it was
     offered no input — a buffer error; counts stay within what was offered; with input and room
     there is progress (or the end); what has been handed over so far is a prefix of `P`; and when
-    stream end is reported it is all of `P` and the input consumed over all calls (`C` before these)
-    is exactly `L`, the length of the encoded stream. -/
+    stream end is reported it is all of `P`, the input consumed over all calls (`C` before these)
+    is exactly `L`, the length of the encoded stream, and every later call reports stream end again,
+    consuming and delivering nothing. -/
 def Safe (P : Array UInt8) (L : Nat) : Array UInt8 → Nat → List (Nat × Nat × Model.InflB.CallRes) → Prop
   | _, _, [] => True
   | D, C, (n, room, r) :: rs =>
@@ -566,7 +628,9 @@ def Safe (P : Array UInt8) (L : Nat) : Array UInt8 → Nat → List (Nat × Nat 
       r.consumed ≤ n ∧ r.out.size ≤ room ∧
       (0 < n → 0 < room → 0 < r.consumed ∨ 0 < r.out.size ∨ r.status = Model.InflB.rStreamEnd) ∧
       IsPrefix (D ++ r.out) P ∧
-      (if r.status = Model.InflB.rStreamEnd then D ++ r.out = P ∧ C + r.consumed = L else Safe P L (D ++ r.out) (C + r.consumed) rs)
+      (if r.status = Model.InflB.rStreamEnd then D ++ r.out = P ∧ C + r.consumed = L ∧
+          (∀ x ∈ rs, x.2.2.status = Model.InflB.rStreamEnd ∧ x.2.2.consumed = 0 ∧ x.2.2.out = #[])
+        else Safe P L (D ++ r.out) (C + r.consumed) rs)
 
 /-- ANY SEQUENCE OF CALLS from a state of the invariant is safe. -/
 theorem run_safe {flags : Nat} {V : Array UInt8 → Prop} {P : Array UInt8} {L : Nat} (hf : RingTheory flags V P L) (b0 : Array UInt8) :
@@ -598,7 +662,7 @@ theorem run_safe {flags : Nat} {V : Array UInt8 → Prop} {P : Array UInt8} {L :
         rw [ho']; exact hrest.isPrefix hf
     · by_cases he : r.status = rStreamEnd
       · rw [if_pos he] at hrest ⊢
-        rw [ho', hc']; exact hrest
+        rw [ho', hc']; exact ⟨hrest.1, hrest.2.1, runInfl_ended flags rest w' _ hrest.2.2⟩
       · rw [if_neg he] at hrest ⊢
         rw [ho', hc']
         exact ih w' _ _ _ hrest
